@@ -920,8 +920,8 @@ theorem decodeSubsetLoop_static (T : Tables) (edition s4max : Nat) :
 
 /-! ### the decoder re-derives the layout the encoder used -/
 
-theorem applyWidth_upd (ddo1 : DDO) (n : Node) (f : Flags) (e' : Enc) (a : List Nat) (w : Nat) (c : Bool) (e : Enc) :
-    applyWidth ddo1 { n with flags := f, enc := e', af := a, afW := w } c e = applyWidth ddo1 n c e := by
+theorem applyWidth_upd (ddo1 : DDO) (n : Node) (f : Flags) (e' : Enc) (a : List Nat) (w b : Nat) (c : Bool) (e : Enc) :
+    applyWidth ddo1 { n with flags := f, enc := e', af := a, afW := w, afBits := b } c e = applyWidth ddo1 n c e := by
   unfold applyWidth applyNumeric
   rfl
 
@@ -932,9 +932,10 @@ theorem applyTail_idem (ddo1 : DDO) (n : Node) (e1 : Enc) (err1 : Bool) :
   have haf : ∀ c, applyAFList ddo1 c e1 (applyAFList ddo1 c e1 n.af) = applyAFList ddo1 c e1 n.af := by
     intro c; unfold applyAFList; split <;> simp_all
   rw [haf]
-  by_cases hc : (afApplies ddo1 (n.flags.class31 || decide (Desc.x n.desc = 31)) e1 && n.val.isSome && n.afW == 0) = true
+  by_cases hc : (afApplies ddo1 (n.flags.class31 || decide (Desc.x n.desc = 31)) e1 && n.val.isSome &&
+      n.afW != listSumN ddo1.afList) = true
   · simp only [hc, if_true]
-    split <;> rfl
+    simp
   · simp only [hc, Bool.false_eq_true, if_false]
 
 theorem applyTail_desc (d : DDO) (n : Node) (e : Enc) (b : Bool) : (applyTail d n e b).2.1.desc = n.desc := by
